@@ -44,14 +44,19 @@ def dialect():
 	11. conditionals come in the three shipped styles only: (a) `@sizeref(m, delta)` uintN member followed by struct member
 	    `m = T if 0 not equals that_size`; (b) byte array guarded by its own size member `if <all-ones> not equals name_size`
 	    (generate_serialize_field's inline `is not None` hack, generate_condition's truthiness hack); (c) union arms
-	    `x = T if NAME equals later_enum_member`: all arms the same size (single dummy read, get_deserialize_descriptor), the enum member
-	    after the arms, one arm per enum value.
+	    `x = T if NAME equals later_enum_member`: all arms the same size and ADJACENT (they occupy the same bytes: a single dummy read fills
+	    one temporary buffer, get_deserialize_descriptor, while serialize writes the chosen arm at its own position), the enum member after
+	    the arms, one arm per enum value.
 	12. sort keys: `@sort_key(k)` on a counted struct array, k an alias-typed member or a struct member whose struct has @comparer over
 	    enum / alias members, `!ripemd_keccak_256` only on binary_fixed members (TypedArrayPrinter._get_sort_accessor,
 	    StructFormatter.get_comparer_descriptor uses `.bytes`).
 	13. names: members are lower snake of >= 2 characters (grammar PROPERTY_NAME), type names `Xx..` (USER_TYPE_NAME); Python keywords,
 	    the generated methods' own locals and attributes (buffer, payload, instance, size, sort, serialize, ...) are avoided;
-	    `type` and `property` are allowed (name_formatting.fix_name appends `_`)."""
+	    `type` and `property` are allowed (name_formatting.fix_name appends `_`) except as sort-key / comparer / condition members.
+	14. NARROWED after findings (each is replayed by a fixed schema of PROBES and reported under c15:<name> while it fails): every child of an
+	    abstract parent adds at least one member; every struct has at least one settable member; an abstract parent has no byte-array
+	    member of its own; a sort key is not called `type`/`property`; no member is called like a local of the generated methods
+	    (buffer, instance, payload, ...); the holder of an array of an @is_aligned parent is aligned when a child has an array (9)."""
 	return dialect.__doc__
 
 
